@@ -92,6 +92,17 @@ def nt_alignment(inp):
                     if not ok:
                         bad.append({'times_a': str(ta), 'times_b': str(tb), 'entry': [i, j], 'steps': [int(ka), int(kb)],
                                     'observed': str(got), 'required': 'NaN' if kb < ka else str(exact(ka, kb))})
+    # empty selections (for either operator, either time order): an empty axis, no exception
+    for order in ('ordered', 'anti'):
+        for ta, tb in (([1, 2], []), ([], [1, 2]), ([1, 2], slice(2, 2)), (slice(2, 2), [1, 2]), ([], [])):
+            try:
+                times, corr = oqupy.compute_correlations(sys_, pt, A, B, ta, tb, time_order=order, initial_state=rho0, start_time=0.0, dt=dt,
+                                                         progress_type='silent')
+                if tuple(corr.shape) != (len(times[0]), len(times[1])) or 0 not in corr.shape:
+                    bad.append({'times_a': str(ta), 'times_b': str(tb), 'time_order': order, 'shape': list(corr.shape)})
+            except Exception as e:       # noqa
+                bad.append({'times_a': str(ta), 'times_b': str(tb), 'time_order': order, 'observed': type(e).__name__ + ': ' + str(e)[:80],
+                            'required': 'an array with an empty axis'})
     return {'violates': bool(bad), 'detail': bad[:3], 'n_bad_entries': len(bad)}
 
 
